@@ -364,6 +364,29 @@ impl Check for C08 {
                 }
             }
         });
+        // ... and in user units of 4096, 65536 and 2^20 pixels: the determinant of the transform (2^-24,
+        // 2^-32, 2^-40) is below f32::EPSILON and still nowhere near singular
+        run.bound("conjugated scales, tiny determinants", "9^3 quads and 9^2 x 3 cubics (control points x k under scale 1/k, k in {4096, 65536, 2^20}), both rules, fill and clip".to_string());
+        run.par(gs.len() * gs.len(), |s, l| {
+            let (a, b) = (gs[s / gs.len()], gs[s % gs.len()]);
+            for k in [4096.0f32, 65536.0, 1048576.0] {
+                let xf: Xf = [1.0 / k, 0., 0., 1.0 / k, 0.25, -0.5];
+                let sc = |p: (f32, f32)| (p.0 * k, p.1 * k);
+                for (ci, c) in gs.iter().enumerate() {
+                    let (pa, pb, pc) = (sc(a), sc(b), sc(*c));
+                    for evenodd in [false, true] {
+                        let path = PathSpec { evenodd, ops: vec![POp::M(pa.0, pa.1), POp::Q(pb.0, pb.1, pc.0, pc.1)] };
+                        account(run, 25_500 + s, l, &Case { w: 16, path: path.clone(), xf, clip: false, pre: false }, false);
+                        account(run, 25_500 + s, l, &Case { w: 16, path, xf, clip: true, pre: false }, false);
+                    }
+                    if ci % 3 == 0 {
+                        let pd = sc(gs[(ci + s) % gs.len()]);
+                        let path = PathSpec { evenodd: false, ops: vec![POp::M(pa.0, pa.1), POp::C(pb.0, pb.1, pc.0, pc.1, pd.0, pd.1)] };
+                        account(run, 25_500 + s, l, &Case { w: 16, path, xf, clip: false, pre: false }, false);
+                    }
+                }
+            }
+        });
         // arcs of sweep zero inside a polygon: the arc contributes its (start = end) point as a vertex
         run.bound("zero-sweep arcs", "M a; arc(c, r, start, 0); L b over 4 x 4 end points x 8 start angles x 2 radii, also as the first op and followed by a real arc; fill and clip".to_string());
         run.par(8 * 2, |s, l| {
